@@ -234,6 +234,11 @@ fn lm_impl(e: &E, d: &[Vec<f64>], hp: (f64, f64, f64), x: &[f64], k: usize) -> R
     catch(|| { let o = LM::new(hp.0, hp.1, hp.2); let (p, c) = o.optimize(|p, dd| objective(e, p, dd), x, &dr, k); let mut v = p.v; v.extend_from_slice(&c.data); v })
 }
 
+fn lm_impl_default(e: &E, d: &[Vec<f64>], x: &[f64], k: usize) -> Result<Vec<f64>, String> {
+    let dr = refs(d);
+    catch(|| { let o = LM::default(); let (p, c) = o.optimize(|p, dd| objective(e, p, dd), x, &dr, k); let mut v = p.v; v.extend_from_slice(&c.data); v })
+}
+
 type Solves = Vec<(Vec<f64>, Vec<f64>, Vec<f64>)>;
 type Invs = Vec<(Vec<f64>, Vec<f64>)>;
 fn same_bits(a: &[f64], c: &[f64]) -> bool { a.len() == c.len() && a.iter().zip(c).all(|(x, y)| x.to_bits() == y.to_bits() || (x.is_nan() && y.is_nan())) }
@@ -257,7 +262,7 @@ fn lm_record(e: &E, d: &[Vec<f64>], hp: (f64, f64, f64), x0: &[f64], maxsteps: u
         let mut jac = Matrix::new(grad, n as i32, p as i32);
         let mut jtj = jac.t_dot(&jac);
         let mut jtr = jac.t_dot(&res).to_matrix();
-        let mut mu = tau * jtj.diag().max(); let mut nu = 2.;
+        let mut mu = tau; let mut nu = 2.;
         let mut stop = jtr.inf_norm() <= eps1;
         let mut step = 0;
         loop {
@@ -459,9 +464,65 @@ pub fn gen(tier: &str, seed: u64, outdir: &str) {
         cs.push(app("CLm", vec![etm(&e), data_tm(&d), Tm::F(hp.0), Tm::F(hp.1), Tm::F(hp.2), fl(&x0), runs_tm(&rs), st, it_, libm_table(&Default::default())]), "lm/malformed", true);
         cs.push(app("CLmE", vec![etm(&e), data_tm(&d), Tm::F(hp.0), Tm::F(hp.1), Tm::F(hp.2), fl(&x0), runs_tm(&rs), libm_table(&Default::default())]), "e2e-lm/malformed", true);
     }
+
+    // 4. coverage audit (own random stream; the cases above are unchanged): the other public constructors / setters, hyper-parameters
+    //    at the ends of their ranges, LM models with 3..5 parameters, exactly 5 points, n = p, starts at the origin
+    let mut r2 = Rng::new(seed ^ 0xA0D1_7C10);
+    let sgd_def = sgd_default_fields();
+    for it in 0..(if thorough { 40 } else { 8 }) {
+        let p = problem(&mut r2, (it as u64) % 5);
+        let ks: Vec<usize> = vec![0, 1, 2, 3, 7];
+        let form = 1 + (it % 4) as u8;
+        let hp = match form { 1 => KB, 2 | 3 => (step_range(&mut r2), KB.1, KB.2, KB.3), _ => (step_range(&mut r2), beta_edge(&mut r2), beta_edge(&mut r2), 1e-8) };
+        crate::libm::start();
+        let rs: Vec<_> = ks.iter().map(|&k| (k, adam_via(form, &p.e, &p.d, hp, &p.x0, k))).collect();
+        let t = crate::libm::stop();
+        cs.push(app("CAdam", vec![etm(&p.e), data_tm(&p.d), Tm::F(hp.0), Tm::F(hp.1), Tm::F(hp.2), Tm::F(hp.3), fl(&p.x0), runs_tm(&rs), libm_table(&t)]), "adam/constructors", changing(&rs));
+        let sform = 1 + (it % 3) as u8;
+        let shp = match (sform, sgd_def) { (1, Some(d)) => Some(d), (2, Some(d)) => Some((step_range(&mut r2), d.1, d.2)), (3, _) => Some((step_range(&mut r2), *r2.pick(&[0.0, 0.99, 0.5]), it % 2 == 0)), _ => None };
+        if let Some(hs) = shp {
+            crate::libm::start();
+            let rs: Vec<_> = ks.iter().map(|&k| (k, sgd_via(sform, &p.e, &p.d, hs, &p.x0, k))).collect();
+            let t = crate::libm::stop();
+            cs.push(app("CSgd", vec![etm(&p.e), data_tm(&p.d), Tm::F(hs.0), Tm::F(hs.1), Tm::B(hs.2), fl(&p.x0), runs_tm(&rs), libm_table(&t)]), "sgd/constructors", changing(&rs));
+        }
+    }
+    for it in 0..(if thorough { 60 } else { 10 }) {
+        let p = problem(&mut r2, (it as u64) % 5);
+        let ks = ks_for(&mut r2, 40, 6, 2);
+        let hp = (step_range(&mut r2), beta_edge(&mut r2), beta_edge(&mut r2), *r2.pick(&[1e-8, 0.0, 1e-3]));
+        crate::libm::start();
+        let rs: Vec<_> = ks.iter().map(|&k| (k, adam_impl(&p.e, &p.d, hp, &p.x0, k))).collect();
+        let t = crate::libm::stop();
+        cs.push(app("CAdam", vec![etm(&p.e), data_tm(&p.d), Tm::F(hp.0), Tm::F(hp.1), Tm::F(hp.2), Tm::F(hp.3), fl(&p.x0), runs_tm(&rs), libm_table(&t)]), "adam/hyper-parameter-ends", changing(&rs));
+        let hs = (step_range(&mut r2), if it % 2 == 0 { 0.0 } else { 0.99 }, it % 4 < 2);
+        crate::libm::start();
+        let rs: Vec<_> = ks.iter().map(|&k| (k, sgd_impl(&p.e, &p.d, hs, &p.x0, k))).collect();
+        let t = crate::libm::stop();
+        cs.push(app("CSgd", vec![etm(&p.e), data_tm(&p.d), Tm::F(hs.0), Tm::F(hs.1), Tm::B(hs.2), fl(&p.x0), runs_tm(&rs), libm_table(&t)]), "sgd/hyper-parameter-ends", changing(&rs));
+    }
+    for it in 0..(if thorough { 70 } else { 14 }) {
+        let model = if it % 2 == 0 { 6 + (it / 2) % 7 } else { (it / 2) % 6 };
+        // (the tape model's reverse sweep is quadratic in the number of points: 200 points are left to the oracle)
+        let n = [5usize, 12, 7, 40, 24, 5, 6][it % 7];
+        let noise = *r2.pick(&[0.0, 0.01, 0.1, 0.3]);
+        let (e, d, x0, tag) = lm_problem_wide(&mut r2, model, n, noise, (it % 6) as u8);
+        let via_default = it % 4 == 0;
+        let hp = if via_default { (1e-6, 1e-6, 1e-2) } else { (*r2.pick(&[1e-6, 1e-9, 0.0]), *r2.pick(&[1e-6, 1e-10, 0.0]), *r2.pick(&[1e-2, 1e-3, 1.0, 10.0])) };
+        let ks = if n == 40 { vec![0usize, 1, 2] } else { ks_for(&mut r2, 20, 3, 1) };
+        let (mut solves, mut invs) = (vec![], vec![]);
+        crate::libm::start();
+        let rs: Vec<_> = ks.iter().map(|&k| (k, if via_default { lm_impl_default(&e, &d, &x0, k) } else { lm_impl(&e, &d, hp, &x0, k) })).collect();
+        for &k in &ks { lm_record(&e, &d, hp, &x0, k, &mut solves, &mut invs); }
+        let t = crate::libm::stop();
+        let st = Tm::L(solves.iter().map(|(a, bb, x)| Tm::Tup(vec![fl(a), fl(bb), fl(x)])).collect());
+        let it_ = Tm::L(invs.iter().map(|(a, x)| Tm::Tup(vec![fl(a), fl(x)])).collect());
+        cs.push(app("CLm", vec![etm(&e), data_tm(&d), Tm::F(hp.0), Tm::F(hp.1), Tm::F(hp.2), fl(&x0), runs_tm(&rs), st, it_, libm_table(&t)]), &format!("wide-{}", tag), changing(&rs));
+        cs.push(app("CLmE", vec![etm(&e), data_tm(&d), Tm::F(hp.0), Tm::F(hp.1), Tm::F(hp.2), fl(&x0), runs_tm(&rs), libm_table(&t)]), &format!("e2e-wide-{}", tag), changing(&rs));
+    }
     drop(_q);
     cs.write(outdir, if thorough { 40 } else { 25 },
-             "objective programs as ASTs over reverse::Var (random convex / non-convex quadratics in 1..8 dimensions, Rosenbrock, least-squares losses with exp/sin/powi/division nodes, arbitrary random ASTs over every node kind with let-sharing, special values in the parameters for the gradient cases); Adam and SGD (plain / momentum / Nesterov) compared for every step budget k of a dense prefix (all k up to 200 resp. 300 for six problems) plus sampled k up to 200 (quick) / 2000 (thorough); LM on linear, quadratic, exponential, logistic, rational and constant curve fits with 5..24 (60) points and poor starts, inner LU solves recorded and keyed bitwise, and every LM case ALSO end to end (tags e2e-*: no table of inner solves, damped.solve / jtj.inv computed inside Coq by C01's executable models of Matrix::solve / Matrix::inv); malformed streams (index out of range, no parameters, non-positive betas, wrong data shapes); non-trivial = at least three distinct parameter vectors along the step budgets (two iterations with a changing state), a finite non-zero gradient entry (gradient cases), or a rejected call; distinct by hash of the case term");
+             "objective programs as ASTs over reverse::Var (random convex / non-convex quadratics in 1..8 dimensions, Rosenbrock, least-squares losses with exp/sin/powi/division nodes, arbitrary random ASTs over every node kind with let-sharing, special values in the parameters for the gradient cases); Adam and SGD (plain / momentum / Nesterov) compared for every step budget k of a dense prefix (all k up to 200 resp. 300 for six problems) plus sampled k up to 200 (quick) / 2000 (thorough); LM on linear, quadratic, exponential, logistic, rational and constant curve fits with 5..24 (60) points and poor starts, inner LU solves recorded and keyed bitwise, and every LM case ALSO end to end (tags e2e-*: no table of inner solves, damped.solve / jtj.inv computed inside Coq by C01's executable models of Matrix::solve / Matrix::inv); malformed streams (index out of range, no parameters, non-positive betas, wrong data shapes); coverage-audit additions: Adam::default / with_stepsize / set_stepsize, SGD::default / set_stepsize, LM::default, step sizes over 1e-4..0.5, betas at both ends of (0,1), momentum 0 and 0.99 in both forms, LM models with 3..5 parameters (cubic, quartic, exponential sums with offset, logistic with offset / trend), exactly 5 points, n = p, 40 points, starts at the origin / with a zero coordinate / at the generating parameters, tolerances 0 and tau = 10; non-trivial = at least three distinct parameter vectors along the step budgets (two iterations with a changing state), a finite non-zero gradient entry (gradient cases), or a rejected call; distinct by hash of the case term");
 }
 
 // ---------------------------------------------------------------------------------------------
@@ -538,6 +599,382 @@ fn inv_ref(a: &[f64], n: usize) -> Option<Vec<f64>> {
         for i in 0..n { if i != c { let f = m[i * 2 * n + c]; if f != 0.0 { for j in 0..2 * n { m[i * 2 * n + j] -= f * m[c * 2 * n + j]; } } } }
     }
     Some((0..n).flat_map(|i| (0..n).map(move |j| (i, j))).map(|(i, j)| m[i * 2 * n + n + j]).collect())
+}
+
+// ---------------------------------------------------------------------------------------------
+// coverage audit (the property's quantifier against the evaluation points): what follows ADDS evaluation points; the
+// criteria are those of `judge` / `lm_judge` above, unchanged.
+
+/// curve models with 3..5 parameters (the quantifier says 1..5): polynomials (linear in the parameters), sums of
+/// exponentials, logistic curves with offset / trend
+fn curve_wide(kind: usize, x: C) -> (E, usize, &'static str) {
+    let px = |i: usize, n: i32, x: &C| -> E { // p_i x^n written as p_i * (0 p_0 + x)^n so that x enters as a constant
+        E::Mul(b(E::Par(i)), b(E::Powi(b(E::AddC(b(E::MulC(b(E::Par(0)), C::Lit(0.0))), x.clone())), n))) };
+    let pexp = |a: usize, r: usize, x: &C| -> E { E::Mul(b(E::Par(a)), b(E::Fn(U::Exp, b(E::MulC(b(E::Par(r)), x.clone()))))) };
+    match kind {
+        0 => (sum_chain(vec![E::Par(0), E::MulC(b(E::Par(1)), x.clone()), px(2, 2, &x), px(3, 3, &x)]), 4, "lm-cubic"),
+        1 => (sum_chain(vec![E::Par(0), E::MulC(b(E::Par(1)), x.clone()), px(2, 2, &x), px(3, 3, &x), px(4, 4, &x)]), 5, "lm-quartic"),
+        2 => (E::Add(b(pexp(0, 1, &x)), b(E::Par(2))), 3, "lm-exponential-offset"),
+        3 => (E::Add(b(pexp(0, 1, &x)), b(pexp(2, 3, &x))), 4, "lm-biexponential"),
+        4 => (sum_chain(vec![pexp(0, 1, &x), pexp(2, 3, &x), E::Par(4)]), 5, "lm-biexponential-offset"),
+        5 => (E::Add(b(logistic(x)), b(E::Par(3))), 4, "lm-logistic-offset"),
+        _ => (sum_chain(vec![logistic(x.clone()), E::Par(3), E::MulC(b(E::Par(4)), x)]), 5, "lm-logistic-trend"),
+    }
+}
+/// a curve-fitting problem with exactly `n` points for one of the 13 models (the 6 of `lm_problem`'s table, the 7 of `curve_wide`)
+fn lm_problem_wide(r: &mut Rng, model: usize, n: usize, noise: f64, start: u8) -> (E, Vec<Vec<f64>>, Vec<f64>, &'static str) {
+    let x = C::Dat(0, 0);
+    let (e, np, tag): (E, usize, &'static str) = match model {
+        0 => { let (e, k) = curve(0, x); (e, k, "lm-linear") }
+        1 => { let (e, k) = curve(4, x); (e, k, "lm-quadratic-in-x") }
+        2 => { let (e, k) = curve(1, x); (e, k, "lm-exponential") }
+        3 => (logistic(x), 3, "lm-logistic"),
+        4 => { let (e, k) = curve(6, x); (e, k, "lm-rational") }
+        5 => { let (e, k) = curve(5, x); (e, k, "lm-constant") }
+        m => curve_wide(m - 6, x),
+    };
+    let logi = tag.starts_with("lm-logistic");
+    let xs: Vec<f64> = (0..n).map(|i| (i as f64) * (4.0 / n as f64) + r.uniform(-0.05, 0.05) - if logi { 2.0 } else { 0.0 }).collect();
+    let truth: Vec<f64> = match tag {
+        "lm-exponential" => vec![r.uniform(0.5, 2.0), r.uniform(-0.8, 0.6)],
+        "lm-exponential-offset" => vec![r.uniform(0.5, 2.0), r.uniform(-0.8, 0.6), r.uniform(-2.0, 2.0)],
+        "lm-biexponential" => vec![r.uniform(0.5, 2.0), r.uniform(-0.8, -0.1), r.uniform(0.5, 2.0), r.uniform(0.1, 0.6)],
+        "lm-biexponential-offset" => vec![r.uniform(0.5, 2.0), r.uniform(-0.8, -0.1), r.uniform(0.5, 2.0), r.uniform(0.1, 0.6), r.uniform(-2.0, 2.0)],
+        "lm-logistic" => vec![r.uniform(1.0, 3.0), r.uniform(0.8, 2.0), r.uniform(-0.5, 0.5)],
+        "lm-logistic-offset" => vec![r.uniform(1.0, 3.0), r.uniform(0.8, 2.0), r.uniform(-0.5, 0.5), r.uniform(-2.0, 2.0)],
+        "lm-logistic-trend" => vec![r.uniform(1.0, 3.0), r.uniform(0.8, 2.0), r.uniform(-0.5, 0.5), r.uniform(-2.0, 2.0), r.uniform(-0.5, 0.5)],
+        _ => (0..np).map(|_| r.uniform(-2.0, 2.0)).collect(),
+    };
+    let ys: Vec<f64> = xs.iter().map(|&xv| dual(&e, &truth, &[&[xv]]).0 + noise * r.normal()).collect();
+    // poor starts: near / far from the truth as in `lm_problem`, the origin, one coordinate at zero, far away
+    let x0: Vec<f64> = match start {
+        0 => truth.iter().map(|t| if r.coin(0.5) { t + r.uniform(-1.0, 1.0) } else { r.uniform(-3.0, 3.0) }).collect(),
+        1 => vec![0.0; np],
+        2 => { let z = r.below(np as u64) as usize; (0..np).map(|i| if i == z { 0.0 } else { r.uniform(-3.0, 3.0) }).collect() }
+        3 => truth.iter().map(|_| r.uniform(-3.0, 3.0)).collect(),
+        4 => truth.iter().map(|_| r.uniform(-10.0, 10.0)).collect(),
+        _ => truth.clone(),
+    };
+    (e, vec![xs, ys], x0, tag)
+}
+
+/// a polynomial fit of degree 2..4 with 50..200 points, a poor start and tau = 1, determined by `sub` alone
+fn lm_poly_case(sub: u64) -> (E, Vec<Vec<f64>>, Vec<f64>, (f64, f64, f64)) {
+    let mut r = Rng::new(sub ^ 0x90C1_0C10);
+    let model = *r.pick(&[1usize, 6, 7, 7]);
+    let n = *r.pick(&[50usize, 120, 200, 200]);
+    let noise = *r.pick(&[0.0, 0.01, 0.1, 0.3]);
+    let start = if r.coin(0.5) { 0 } else { 3 };
+    let (e, d, x0, _) = lm_problem_wide(&mut r, model, n, noise, start);
+    (e, d, x0, (*r.pick(&[1e-6, 1e-9]), *r.pick(&[1e-6, 1e-10]), 1.0))
+}
+/// the public constructors / setters of Adam (form 0 = `new`)
+fn adam_via(form: u8, e: &E, d: &[Vec<f64>], hp: (f64, f64, f64, f64), x: &[f64], k: usize) -> Result<Vec<f64>, String> {
+    let dr = refs(d);
+    catch(|| {
+        let o = match form {
+            0 => Adam::new(hp.0, hp.1, hp.2, hp.3),
+            1 => Adam::default(),
+            2 => Adam::with_stepsize(hp.0),
+            3 => { let mut o = Adam::default(); o.set_stepsize(hp.0); o }
+            _ => { let mut o = Adam::new(7.5, hp.1, hp.2, hp.3); o.set_stepsize(hp.0); o }
+        };
+        o.optimize(|p, dd| objective(e, p, dd), x, &dr, k).v
+    })
+}
+fn adam_form_name(form: u8, hp: (f64, f64, f64, f64)) -> String {
+    match form { 0 => format!("Adam::new({:e}, {:e}, {:e}, {:e})", hp.0, hp.1, hp.2, hp.3), 1 => "Adam::default()".into(), 2 => format!("Adam::with_stepsize({:e})", hp.0),
+                 3 => format!("Adam::default() + set_stepsize({:e})", hp.0), _ => format!("Adam::new(7.5, {:e}, {:e}, {:e}) + set_stepsize({:e})", hp.1, hp.2, hp.3, hp.0) }
+}
+/// the defaults "recommended by Kingma and Ba 2014" (doc comment of `impl Default for Adam`)
+const KB: (f64, f64, f64, f64) = (0.001, 0.9, 0.999, 1e-8);
+/// `SGD`'s fields are private: momentum and the Nesterov flag of `SGD::default()` are read from its `Debug` text
+fn sgd_default_fields() -> Option<(f64, f64, bool)> {
+    let t = format!("{:?}", SGD::default());
+    let field = |name: &str| -> Option<String> { let i = t.find(name)? + name.len(); let rest = &t[i..]; let j = rest.find(|c| c == ',' || c == '}')?; Some(rest[..j].trim().to_string()) };
+    Some((field("stepsize:")?.parse().ok()?, field("momentum:")?.parse().ok()?, field("nesterov:")?.parse().ok()?))
+}
+/// form 0 = `new`, 1 = `default()`, 2 = `default()` + `set_stepsize`, 3 = `new` with another step + `set_stepsize`
+fn sgd_via(form: u8, e: &E, d: &[Vec<f64>], hp: (f64, f64, bool), x: &[f64], k: usize) -> Result<Vec<f64>, String> {
+    let dr = refs(d);
+    catch(|| {
+        let o = match form {
+            0 => SGD::new(hp.0, hp.1, hp.2),
+            1 => SGD::default(),
+            2 => { let mut o = SGD::default(); o.set_stepsize(hp.0); o }
+            _ => { let mut o = SGD::new(7.5, hp.1, hp.2); o.set_stepsize(hp.0); o }
+        };
+        o.optimize(|p, dd| objective(e, p, dd), x, &dr, k).v
+    })
+}
+fn sgd_form_name(form: u8, hp: (f64, f64, bool)) -> String {
+    match form { 0 => format!("SGD::new({:e}, {:e}, {})", hp.0, hp.1, hp.2), 1 => "SGD::default()".into(), 2 => format!("SGD::default() + set_stepsize({:e})", hp.0),
+                 _ => format!("SGD::new(7.5, {:e}, {}) + set_stepsize({:e})", hp.1, hp.2, hp.0) }
+}
+/// values of (0, 1) near both ends, and ordinary ones
+fn beta_edge(r: &mut Rng) -> f64 {
+    *r.pick(&[5e-324, 1e-300, 1e-8, 1e-3, 0.01, 0.5, 0.9, 0.999, 0.9999, 1.0 - 1e-10, 1.0 - EPS / 2.0])
+}
+/// step sizes over the whole stated range 1e-4..0.5 (log-uniform, and both ends exactly)
+fn step_range(r: &mut Rng) -> f64 {
+    match r.below(6) { 0 => 1e-4, 1 => 0.5, _ => (r.uniform((1e-4f64).ln(), (0.5f64).ln())).exp().clamp(1e-4, 0.5) }
+}
+
+fn lm_is_linear(tag: &str) -> bool { matches!(tag, "lm-linear" | "lm-quadratic-in-x" | "lm-constant" | "lm-cubic" | "lm-quartic") }
+/// the three LM clauses on one call of the implementation: (a) RSS not larger than at the start, (b) covariance
+/// s^2 (J^T J)^-1 at the returned point, (c) [check_ls] the least-squares solution of a model linear in the parameters
+fn lm_judge(e: &E, d: &[Vec<f64>], x0: &[f64], hp: (f64, f64, f64), k: usize, via_default: bool, check_ls: bool, tried: &mut u64, out: &mut Vec<Finding>) {
+    let (xs, ys) = (&d[0], &d[1]); let (n, p) = (xs.len(), x0.len());
+    let ctor = if via_default { "LM::default()".to_string() } else { format!("LM::new({:e}, {:e}, {:e})", hp.0, hp.1, hp.2) };
+    let input = format!("model={} xs={} ys={} start={} {} maxsteps={}", etm(e).to_string(), json_floats(xs), json_floats(ys), json_floats(x0), ctor, k);
+    *tried += 1;
+    crumb(&input);
+    let got = if via_default { lm_impl_default(e, d, x0, k) } else { lm_impl(e, d, hp, x0, k) };
+    let v = match got { Ok(v) => v, Err(m) => { out.push(Finding { class: "lm:panics".into(), what: format!("LM panicked on a well-formed problem: {}", m), input }); return; } };
+    let (popt, cov) = (&v[..p], &v[p..]);
+    let (r0, r1) = (rss(e, xs, ys, x0), rss(e, xs, ys, popt));
+    // (a) never a larger residual sum of squares than the start (1e-9 relative slack for the two summation orders)
+    if !(r1 <= r0 * (1.0 + 1e-9) + 1e-300) && r0.is_finite() {
+        out.push(Finding { class: if r1.is_nan() { "lm:returns-nan-parameters".into() } else { "lm:rss-increased".into() }, what: format!("RSS at the start {:e}, at the returned parameters {:?}: {:e}", r0, popt, r1), input: input.clone() });
+    }
+    if popt.iter().any(|x| !x.is_finite()) { return; }
+    // (b) covariance = rss/(n-p) (J^T J)^-1 at the returned point, J by forward-mode differentiation
+    if n > p && k >= 1 {
+        let mut jtj = vec![0.0; p * p];
+        for &x in xs.iter() { let (_, g) = dual(e, popt, &[&[x]]); for i in 0..p { for j in 0..p { jtj[i * p + j] += g[i] * g[j]; } } }
+        if let Some(ji) = inv_ref(&jtj, p) {
+            let cond = jtj.iter().fold(0.0f64, |a, x| a.max(x.abs())) * ji.iter().fold(0.0f64, |a, x| a.max(x.abs()));
+            // (a residual at rounding level makes rss itself ill-conditioned: compare only above it)
+            let ysq: f64 = ys.iter().map(|y| y * y).sum();
+            if cond < 1e6 && ji.iter().all(|x| x.is_finite()) && r1.is_finite() && r1 > 1e-12 * ysq {
+                let s2 = r1 / (n - p) as f64;
+                let scale = ji.iter().fold(0.0f64, |a, x| a.max(x.abs())) * s2;
+                let bad = (0..p * p).any(|i| !((cov[i] - s2 * ji[i]).abs() <= (1e-9 * cond + 1e-6) * scale + 1e-300));
+                if bad { out.push(Finding { class: "lm:covariance".into(), what: format!("covariance {:?}, s^2 (J^T J)^-1 at the returned point = {:?}", cov, ji.iter().map(|x| x * s2).collect::<Vec<_>>()), input: input.clone() }); }
+            }
+        }
+    }
+    // (c) models linear in the parameters: the least-squares solution (normal equations) is reached
+    if check_ls {
+        *tried += 1;
+        // design matrix = gradient of the model wrt the parameters (constant in p)
+        let rows: Vec<Vec<f64>> = xs.iter().map(|&x| dual(e, &vec![0.0; p], &[&[x]]).1).collect();
+        let mut ata = vec![0.0; p * p]; let mut aty = vec![0.0; p];
+        for (row, &y) in rows.iter().zip(ys) { for i in 0..p { aty[i] += row[i] * y; for j in 0..p { ata[i * p + j] += row[i] * row[j]; } } }
+        if let Some(ai) = inv_ref(&ata, p) {
+            let sol: Vec<f64> = (0..p).map(|i| (0..p).map(|j| ai[i * p + j] * aty[j]).sum()).collect();
+            let rs = rss(e, xs, ys, &sol);
+            // the returned point must be (nearly) as good as the least-squares solution
+            if !(r1 <= rs + 1e-6 * (1.0 + rs) ) {
+                out.push(Finding { class: "lm:linear-model-not-solved".into(), what: format!("returned {:?} (RSS {:e}); the least-squares solution is {:?} (RSS {:e})", popt, r1, sol, rs), input: input.clone() });
+            }
+        }
+    }
+}
+
+/// Coverage-audit evaluation points (own random stream, so the points above are unchanged).
+fn oracle_wide(thorough: bool, seed: u64, tried: &mut u64, out: &mut Vec<Finding>) {
+    let mut r = Rng::new(seed ^ 0xA0D1_7C10);
+    let fmt_in = |e: &E, d: &[Vec<f64>], x0: &[f64]| format!("objective={} data={} start={}", etm(e).to_string(), d.iter().map(|x| json_floats(x)).collect::<Vec<_>>().join(","), json_floats(x0));
+    let kmax = if thorough { 2000 } else { 200 };
+    let sgd_hp = |r: &mut Rng, it: usize| -> (f64, f64, bool) {
+        // momentum over the closed range [0, 0.99], both ends exactly, in the plain and in the Nesterov form
+        let mom = match it % 5 { 0 => 0.0, 1 => 0.99, _ => r.uniform(0.0, 0.99) };
+        (step_range(r), mom, it % 2 == 1)
+    };
+
+    // W1. EVERY step budget 1..=200 (thorough: 1..=300, then every 7th up to 2000) on problems of every family
+    let ks: Vec<usize> = if thorough { (1..=300).chain((301..=2000).step_by(7)).chain([1999, 2000]).collect() } else { (1..=200).collect() };
+    for it in 0..(if thorough { 20 } else { 10 }) {
+        let p = problem(&mut r, (it as u64) % 5);
+        let dr = refs(&p.d);
+        let kk_max = *ks.last().unwrap();
+        let hp = (step_range(&mut r), r.uniform(0.05, 0.99), r.uniform(0.05, 0.9999), *r.pick(&[1e-8, 0.0, 1e-3]));
+        let input = format!("{} Adam::new({:e}, {:e}, {:e}, {:e})", fmt_in(&p.e, &p.d, &p.x0), hp.0, hp.1, hp.2, hp.3);
+        crumb(&format!("{} maxsteps={}", input, kk_max));
+        let traj = adam_ref(&p.e, &dr, hp, &p.x0, kk_max);
+        for &kk in &ks {
+            *tried += 1;
+            let inp = format!("{} maxsteps={}", input, kk);
+            crumb(&inp);
+            judge("adam", &adam_impl(&p.e, &p.d, hp, &p.x0, kk), &traj, kk, &inp, out);
+            if out.len() > 40 { return; }
+        }
+        let hs = sgd_hp(&mut r, it / 5 + it);
+        let input = format!("{} SGD::new({:e}, {:e}, {})", fmt_in(&p.e, &p.d, &p.x0), hs.0, hs.1, hs.2);
+        crumb(&format!("{} maxsteps={}", input, kk_max));
+        let traj = sgd_ref(&p.e, &dr, hs, &p.x0, kk_max);
+        for &kk in &ks {
+            *tried += 1;
+            let inp = format!("{} maxsteps={}", input, kk);
+            crumb(&inp);
+            judge("sgd", &sgd_impl(&p.e, &p.d, hs, &p.x0, kk), &traj, kk, &inp, out);
+            if out.len() > 40 { return; }
+        }
+    }
+
+    // W2. hyper-parameters over the whole stated ranges: step sizes 1e-4..0.5 (continuous, both ends), beta1 / beta2 near both ends of
+    //     (0, 1), momentum 0 and 0.99 exactly in both forms; W4. start points: the origin, a zero coordinate, -0, far / tiny scales;
+    //     thorough: objectives with exp / sin nodes up to the full budget 2000 (the search above stops them at 200)
+    for it in 0..(if thorough { 1500 } else { 200 }) {
+        let mut p = problem(&mut r, (it as u64) % 5);
+        match it % 12 {
+            1 => { for v in p.x0.iter_mut() { *v = 0.0; } }
+            3 => { let i = r.below(p.x0.len() as u64) as usize; p.x0[i] = 0.0; }
+            5 => { for v in p.x0.iter_mut() { *v = -0.0; } }
+            7 => { let sc = *r.pick(&[1e3, 1e6, 1e-6, 1e-12]); for v in p.x0.iter_mut() { *v *= sc; } }
+            _ => {}
+        }
+        let dr = refs(&p.d);
+        let k = if it % 4 == 0 { kmax } else { 1 + r.below(60) as usize };
+        let k = if uses_libm(&p.e) && !(thorough && it % 8 == 0) { k.min(200) } else { k };
+        let hp = (step_range(&mut r), beta_edge(&mut r), beta_edge(&mut r), *r.pick(&[1e-8, 1e-8, 0.0, 1e-3]));
+        let input = format!("{} Adam::new({:e}, {:e}, {:e}, {:e})", fmt_in(&p.e, &p.d, &p.x0), hp.0, hp.1, hp.2, hp.3);
+        crumb(&format!("{} maxsteps={}", input, k));
+        let traj = adam_ref(&p.e, &dr, hp, &p.x0, k);
+        for kk in [k, 1 + r.below(k as u64) as usize, 1] {
+            *tried += 1;
+            let inp = format!("{} maxsteps={}", input, kk);
+            crumb(&inp);
+            judge("adam", &adam_impl(&p.e, &p.d, hp, &p.x0, kk), &traj, kk, &inp, out);
+        }
+        let hs = sgd_hp(&mut r, it);
+        let input = format!("{} SGD::new({:e}, {:e}, {})", fmt_in(&p.e, &p.d, &p.x0), hs.0, hs.1, hs.2);
+        crumb(&format!("{} maxsteps={}", input, k));
+        let traj = sgd_ref(&p.e, &dr, hs, &p.x0, k);
+        for kk in [k, 1 + r.below(k as u64) as usize, 2.min(k)] {
+            *tried += 1;
+            let inp = format!("{} maxsteps={}", input, kk);
+            crumb(&inp);
+            judge("sgd", &sgd_impl(&p.e, &p.d, hs, &p.x0, kk), &traj, kk, &inp, out);
+        }
+        if out.len() > 40 { return; }
+    }
+    // start exactly at the minimiser of a separable quadratic (zero gradient: the first update leaves the parameters where they are)
+    for it in 0..(if thorough { 40 } else { 8 }) {
+        let n = 1 + r.below(8) as usize;
+        let cs: Vec<f64> = (0..n).map(|_| (r.uniform(-2.0, 2.0) * 64.0).round() / 64.0).collect();
+        let e = sum_chain((0..n).map(|i| E::MulC(b(E::Powi(b(E::SubC(b(E::Par(i)), C::Lit(cs[i]))), 2)), C::Lit(r.uniform(0.2, 3.0)))).collect());
+        for k in [1usize, 2, 50] {
+            *tried += 2;
+            let hp = (step_range(&mut r), 0.9, 0.999, 1e-8);
+            let inp = format!("{} Adam::new({:e}, 0.9, 0.999, 1e-8) maxsteps={}", fmt_in(&e, &[], &cs), hp.0, k);
+            crumb(&inp);
+            judge("adam", &adam_impl(&e, &[], hp, &cs, k), &adam_ref(&e, &[], hp, &cs, k), k, &inp, out);
+            let hs = sgd_hp(&mut r, it);
+            let inp = format!("{} SGD::new({:e}, {:e}, {}) maxsteps={}", fmt_in(&e, &[], &cs), hs.0, hs.1, hs.2, k);
+            crumb(&inp);
+            judge("sgd", &sgd_impl(&e, &[], hs, &cs, k), &sgd_ref(&e, &[], hs, &cs, k), k, &inp, out);
+        }
+    }
+
+    // W3. the other public constructors / setters: Adam::default (Kingma-Ba's recommended values), with_stepsize, set_stepsize;
+    //     SGD::default, set_stepsize; and W5. determinism of a REUSED optimiser (the tape is owned by it) with another problem in between
+    let sgd_def = sgd_default_fields();
+    for it in 0..(if thorough { 150 } else { 30 }) {
+        let p = problem(&mut r, (it as u64) % 5);
+        let q = problem(&mut r, ((it + 2) as u64) % 5);
+        let (dr, qr) = (refs(&p.d), refs(&q.d));
+        let k = if it % 5 == 0 { 200 } else { 1 + r.below(60) as usize };
+        let form = 1 + (it % 4) as u8;
+        let hp = match form { 1 => KB, 2 | 3 => (step_range(&mut r), KB.1, KB.2, KB.3), _ => (step_range(&mut r), r.uniform(0.05, 0.99), r.uniform(0.05, 0.9999), 1e-8) };
+        let inp = format!("{} {} maxsteps={}", fmt_in(&p.e, &p.d, &p.x0), adam_form_name(form, hp), k);
+        *tried += 1;
+        crumb(&inp);
+        let traj = adam_ref(&p.e, &dr, hp, &p.x0, k);
+        judge("adam", &adam_via(form, &p.e, &p.d, hp, &p.x0, k), &traj, k, &inp, out);
+        let sform = 1 + (it % 3) as u8;
+        let shp = match (sform, sgd_def) { (1, Some(d)) => Some(d), (2, Some(d)) => Some((step_range(&mut r), d.1, d.2)), (3, _) => Some(sgd_hp(&mut r, it)), _ => None };
+        if let Some(hs) = shp {
+            let inp = format!("{} {} maxsteps={}", fmt_in(&p.e, &p.d, &p.x0), sgd_form_name(sform, hs), k);
+            *tried += 1;
+            crumb(&inp);
+            let traj = sgd_ref(&p.e, &dr, hs, &p.x0, k);
+            judge("sgd", &sgd_via(sform, &p.e, &p.d, hs, &p.x0, k), &traj, k, &inp, out);
+        }
+        // reuse: A, B, A on one optimiser against a fresh one
+        let hp = (step_range(&mut r), r.uniform(0.05, 0.99), r.uniform(0.05, 0.9999), 1e-8);
+        let inp = format!("{} {} maxsteps={} (reused after another objective)", fmt_in(&p.e, &p.d, &p.x0), adam_form_name(0, hp), k);
+        *tried += 1;
+        crumb(&inp);
+        let o = Adam::new(hp.0, hp.1, hp.2, hp.3);
+        let a1 = catch(|| o.optimize(|pp, dd| objective(&p.e, pp, dd), &p.x0, &dr, k).v);
+        let _ = catch(|| o.optimize(|pp, dd| objective(&q.e, pp, dd), &q.x0, &qr, 3).v);
+        let a2 = catch(|| o.optimize(|pp, dd| objective(&p.e, pp, dd), &p.x0, &dr, k).v);
+        let a3 = adam_impl(&p.e, &p.d, hp, &p.x0, k);
+        if let (Ok(a), Ok(c), Ok(g)) = (&a1, &a2, &a3) { if !same_bits(a, c) || !same_bits(a, g) { out.push(Finding { class: "adam:nondeterministic".into(), what: "identical calls (fresh and reused optimiser) returned different parameters".into(), input: inp }); } }
+        let hs = sgd_hp(&mut r, it);
+        let inp = format!("{} {} maxsteps={} (reused after another objective)", fmt_in(&p.e, &p.d, &p.x0), sgd_form_name(0, hs), k);
+        *tried += 1;
+        crumb(&inp);
+        let o = SGD::new(hs.0, hs.1, hs.2);
+        let a1 = catch(|| o.optimize(|pp, dd| objective(&p.e, pp, dd), &p.x0, &dr, k).v);
+        let _ = catch(|| o.optimize(|pp, dd| objective(&q.e, pp, dd), &q.x0, &qr, 3).v);
+        let a2 = catch(|| o.optimize(|pp, dd| objective(&p.e, pp, dd), &p.x0, &dr, k).v);
+        let a3 = sgd_impl(&p.e, &p.d, hs, &p.x0, k);
+        if let (Ok(a), Ok(c), Ok(g)) = (&a1, &a2, &a3) { if !same_bits(a, c) || !same_bits(a, g) { out.push(Finding { class: "sgd:nondeterministic".into(), what: "identical calls (fresh and reused optimiser) returned different parameters".into(), input: inp }); } }
+        if out.len() > 40 { return; }
+    }
+
+    // W7. Levenberg-Marquardt over the stated sizes: EVERY model family with 1..5 parameters (the table above has 1..3), exactly 5
+    //     and exactly 200 points (and n = p = 5), starts at the origin / with a zero coordinate / far away (|x0| up to 10) / at the
+    //     generating parameters, noise levels up to 0.3,
+    //     LM::default(), tolerances 0 (run the whole budget) and tau outside [1e-3, 1]; thorough: budgets up to 2000
+
+    let sizes = [5usize, 6, 7, 12, 50, 199, 200];
+    for pass in 0..(if thorough { 12 } else { 2 }) {
+        for model in 0..13usize {
+            for (ni, &n) in sizes.iter().enumerate() {
+                let v = pass * 91 + model * 7 + ni;
+                let noise = *r.pick(&[0.0, 0.01, 0.1, 0.3]);
+                let (e, d, x0, tag) = lm_problem_wide(&mut r, model, n, noise, ((v / 2) % 6) as u8);
+                let (hp, via_default) = match v % 6 {
+                    0 => ((1e-6, 1e-6, 1e-2), true),
+                    1 => ((1e-6, 1e-6, 1e-2), false),
+                    2 => ((0.0, 0.0, *r.pick(&[1e-2, 1e-3, 1.0])), false),
+                    3 => ((*r.pick(&[1e-6, 1e-9]), *r.pick(&[1e-6, 1e-10]), *r.pick(&[1e-6, 10.0])), false),
+                    _ => ((*r.pick(&[1e-6, 1e-9]), *r.pick(&[1e-6, 1e-10]), *r.pick(&[1e-2, 1e-3, 1.0])), false),
+                };
+                let k = if v % 2 == 0 { if thorough && v % 8 == 0 { 2000 } else { 200 } } else { 1 + r.below(30) as usize };
+                // clause (c) on every model linear in the parameters run with the full budget, at every tolerance / tau drawn here
+                // (every tolerance is <= 1e-6, the value at which the search above evaluates the clause)
+                let ls = lm_is_linear(tag) && k >= 200;
+                lm_judge(&e, &d, &x0, hp, k, via_default, ls, tried, out);
+                if v % 9 == 0 {
+                    // determinism: a fresh optimiser twice, and one optimiser reused
+                    *tried += 1;
+                    let dr = refs(&d);
+                    let o = LM::new(hp.0, hp.1, hp.2);
+                    let run = |o: &LM| catch(|| { let (pp, c) = o.optimize(|pp, dd| objective(&e, pp, dd), &x0, &dr, k); let mut v = pp.v; v.extend_from_slice(&c.data); v });
+                    let (a1, a2, a3) = (run(&o), run(&o), lm_impl(&e, &d, hp, &x0, k));
+                    if let (Ok(a), Ok(c), Ok(g)) = (&a1, &a2, &a3) { if !same_bits(a, c) || !same_bits(a, g) {
+                        out.push(Finding { class: "lm:nondeterministic".into(), what: "identical calls (fresh and reused optimiser) returned different results".into(), input: format!("model={} xs={} ys={} start={} LM::new({:e}, {:e}, {:e}) maxsteps={}", etm(&e).to_string(), json_floats(&d[0]), json_floats(&d[1]), json_floats(&x0), hp.0, hp.1, hp.2, k) }); } }
+                }
+                if out.len() > 60 { return; }
+            }
+        }
+    }
+
+    // W8. polynomial fits (3..5 parameters: columns x^2 .. x^4 make diag(J^T J) large), the full budget, clause (c) on every run:
+    //     (i) started at the generating parameters (a good start: the least-squares solution is a small correction away),
+    //     (ii) poor starts as above with tau = 1, (iii) poor-start problems found by this audit on which the original code
+    //     returned its start as "converged" (fixed sub-seeds, independent of the run's seed)
+    for it in 0..(if thorough { 600 } else { 40 }) {
+        let model = [1usize, 6, 7, 0, 5][it % 5];
+        let n = [50usize, 200, 12, 120][(it / 5) % 4];
+        let noise = *r.pick(&[0.01, 0.1, 0.3]);
+        let (e, d, x0, _) = lm_problem_wide(&mut r, model, n, noise, 5);
+        let hp = (*r.pick(&[1e-6, 1e-9]), *r.pick(&[1e-6, 1e-10]), if it % 2 == 0 { 1.0 } else { 1e-2 });
+        lm_judge(&e, &d, &x0, hp, 200, false, true, tried, out);
+        if out.len() > 60 { return; }
+    }
+    let found: [u64; 4] = [180, 183, 208, 432];
+    let extra: Vec<u64> = (0..(if thorough { 3000 } else { 60 })).map(|_| r.next()).collect();
+    for &sub in found.iter().chain(extra.iter()) {
+        let (e, d, x0, hp) = lm_poly_case(sub);
+        lm_judge(&e, &d, &x0, hp, 200, false, true, tried, out);
+        if out.len() > 60 { return; }
+    }
 }
 
 pub fn oracle(tier: &str, seed: u64) -> (u64, Vec<Finding>) {
@@ -630,54 +1067,11 @@ pub fn oracle(tier: &str, seed: u64) -> (u64, Vec<Finding>) {
     let nlm = if thorough { 1200 } else { 150 };
     for it in 0..nlm {
         let (e, d, x0, tag) = lm_problem(&mut r, if it % 6 == 0 { 200 } else { 40 });
-        let (xs, ys) = (&d[0], &d[1]); let (n, p) = (xs.len(), x0.len());
         let hp = if it % 3 == 0 { (1e-6, 1e-6, 1e-2) } else { (*r.pick(&[1e-6, 1e-9]), *r.pick(&[1e-6, 1e-10]), *r.pick(&[1e-2, 1e-3, 1.0])) };
         let k = if it % 2 == 0 { 200 } else { 1 + r.below(30) as usize };
-        let input = format!("model={} xs={} ys={} start={} LM::new({:e}, {:e}, {:e}) maxsteps={}", etm(&e).to_string(), json_floats(xs), json_floats(ys), json_floats(&x0), hp.0, hp.1, hp.2, k);
-        tried += 1;
-        crumb(&input);
-        let got = lm_impl(&e, &d, hp, &x0, k);
-        let v = match got { Ok(v) => v, Err(m) => { out.push(Finding { class: "lm:panics".into(), what: format!("LM panicked on a well-formed problem: {}", m), input }); continue; } };
-        let (popt, cov) = (&v[..p], &v[p..]);
-        let (r0, r1) = (rss(&e, xs, ys, &x0), rss(&e, xs, ys, popt));
-        // (a) never a larger residual sum of squares than the start (1e-9 relative slack for the two summation orders)
-        if !(r1 <= r0 * (1.0 + 1e-9) + 1e-300) && r0.is_finite() {
-            out.push(Finding { class: if r1.is_nan() { "lm:returns-nan-parameters".into() } else { "lm:rss-increased".into() }, what: format!("RSS at the start {:e}, at the returned parameters {:?}: {:e}", r0, popt, r1), input: input.clone() });
-        }
-        if popt.iter().any(|x| !x.is_finite()) { continue; }
-        // (b) covariance = rss/(n-p) (J^T J)^-1 at the returned point, J by forward-mode differentiation
-        if n > p && k >= 1 {
-            let mut jtj = vec![0.0; p * p];
-            for &x in xs.iter() { let (_, g) = dual(&e, popt, &[&[x]]); for i in 0..p { for j in 0..p { jtj[i * p + j] += g[i] * g[j]; } } }
-            if let Some(ji) = inv_ref(&jtj, p) {
-                let cond = jtj.iter().fold(0.0f64, |a, x| a.max(x.abs())) * ji.iter().fold(0.0f64, |a, x| a.max(x.abs()));
-                // (a residual at rounding level makes rss itself ill-conditioned: compare only above it)
-                let ysq: f64 = ys.iter().map(|y| y * y).sum();
-                if cond < 1e6 && ji.iter().all(|x| x.is_finite()) && r1.is_finite() && r1 > 1e-12 * ysq {
-                    let s2 = r1 / (n - p) as f64;
-                    let scale = ji.iter().fold(0.0f64, |a, x| a.max(x.abs())) * s2;
-                    let bad = (0..p * p).any(|i| !((cov[i] - s2 * ji[i]).abs() <= (1e-9 * cond + 1e-6) * scale + 1e-300));
-                    if bad { out.push(Finding { class: "lm:covariance".into(), what: format!("covariance {:?}, s^2 (J^T J)^-1 at the returned point = {:?}", cov, ji.iter().map(|x| x * s2).collect::<Vec<_>>()), input: input.clone() }); }
-                }
-            }
-        }
-        // (c) models linear in the parameters: the least-squares solution (normal equations) is reached
-        if (tag == "lm-linear" || tag == "lm-quadratic-in-x" || tag == "lm-constant") && k == 200 && it % 3 == 0 {
-            tried += 1;
-            // design matrix = gradient of the model wrt the parameters (constant in p)
-            let rows: Vec<Vec<f64>> = xs.iter().map(|&x| dual(&e, &vec![0.0; p], &[&[x]]).1).collect();
-            let mut ata = vec![0.0; p * p]; let mut aty = vec![0.0; p];
-            for (row, &y) in rows.iter().zip(ys) { for i in 0..p { aty[i] += row[i] * y; for j in 0..p { ata[i * p + j] += row[i] * row[j]; } } }
-            if let Some(ai) = inv_ref(&ata, p) {
-                let sol: Vec<f64> = (0..p).map(|i| (0..p).map(|j| ai[i * p + j] * aty[j]).sum()).collect();
-                let rs = rss(&e, xs, ys, &sol);
-                // the returned point must be (nearly) as good as the least-squares solution
-                if !(r1 <= rs + 1e-6 * (1.0 + rs) ) {
-                    out.push(Finding { class: "lm:linear-model-not-solved".into(), what: format!("returned {:?} (RSS {:e}); the least-squares solution is {:?} (RSS {:e})", popt, r1, sol, rs), input: input.clone() });
-                }
-            }
-        }
+        lm_judge(&e, &d, &x0, hp, k, false, lm_is_linear(tag) && k == 200 && it % 3 == 0, &mut tried, &mut out);
         if out.len() > 60 { break; }
     }
+    oracle_wide(thorough, seed, &mut tried, &mut out);
     (tried, out)
 }
